@@ -12,6 +12,8 @@ Decided:
   R5 gen_certificate: exactly one SAN entry, dNSName = the domain parameter; the acmeIdentifier extension is built from
      the name=value split of the extension parameter; subject = issuer; public key and signature use the same key;
      notBefore = now, notAfter = now + CRT_NB_DAYS_VALIDITY (> 0) days; the digest goes through get_digest.
+  Evaluation-first: R4 to_idna on sample names (lower-cased A-labels), R5 extension name/value from gen_certificate on sample texts
+  (`name=value`, malformed texts refused); nothing is set on the certificate after `sign`.
 """
 import ast
 
@@ -22,7 +24,8 @@ from ..util import agg_assigns, result_return_kinds, unreachable_without, where
 LEVEL = "other"
 TECHNIQUE = ("constant facts (ALPN wire constant, fatal-alert code), provenance of the acceptor's key/certificate and of "
              "from_acme_ext's arguments, who-may-call on SAN builders, must-pass-through on gen_certificate's success path, "
-             "stdin-reader rule (no local BufReader over stdin)")
+             "stdin-reader rule (no local BufReader over stdin)"
+             "; evaluation of to_idna and of gen_certificate's extension parsing on samples")
 LEVEL_TEXT = ("Decides for every domain, digest, key type and input source the structure of tacd's answer: which protocol "
               "constant is offered, that a foreign ALPN list is refused fatally, that the served certificate and key belong "
               "together, that each command-line/file/stdin value reaches the right certificate field and that the certificate has "
